@@ -280,3 +280,116 @@ func histBucket(d time.Duration) int {
 	}
 	return 5
 }
+
+// ModelAll reads the values of vars with one get-value command (call right after a sat check, before Pop).
+func (s *Solver) ModelAll(vars []*Term) map[string]string {
+	var names []string
+	for _, v := range vars {
+		if s.declared[v] {
+			names = append(names, v.Name)
+		}
+	}
+	res := map[string]string{}
+	if len(names) > 0 {
+		s.send("(get-value (" + strings.Join(names, " ") + "))")
+		var buf strings.Builder
+		depth, started := 0, false
+		for {
+			line := s.readLine(20 * time.Second)
+			if line == "<died>" || line == "<hard-timeout>" {
+				s.dead = true
+				return nil
+			}
+			buf.WriteString(line)
+			buf.WriteByte(' ')
+			inStr := false
+			for i := 0; i < len(line); i++ {
+				ch := line[i]
+				if ch == '"' {
+					inStr = !inStr
+				}
+				if inStr {
+					continue
+				}
+				if ch == '(' {
+					depth++
+					started = true
+				} else if ch == ')' {
+					depth--
+				}
+			}
+			if started && depth <= 0 {
+				break
+			}
+			if !started {
+				return nil // an error line
+			}
+		}
+		parsePairs(buf.String(), res)
+	}
+	// undeclared variables are unconstrained
+	for _, v := range vars {
+		if _, ok := res[v.Name]; !ok {
+			switch v.Sort {
+			case SStr:
+				res[v.Name] = "\"\""
+			case SInt:
+				res[v.Name] = "0"
+			default:
+				res[v.Name] = "false"
+			}
+		}
+	}
+	return res
+}
+
+// parsePairs parses "((a "x") (b 3) (c (- 2)))" into name -> value text.
+func parsePairs(s string, into map[string]string) {
+	i := 0
+	n := len(s)
+	skip := func() {
+		for i < n && (s[i] == ' ' || s[i] == '\n' || s[i] == '\t') {
+			i++
+		}
+	}
+	skip()
+	if i >= n || s[i] != '(' {
+		return
+	}
+	i++
+	for {
+		skip()
+		if i >= n || s[i] != '(' {
+			return
+		}
+		i++
+		skip()
+		st := i
+		for i < n && s[i] != ' ' {
+			i++
+		}
+		name := s[st:i]
+		skip()
+		st = i
+		depth := 0
+		inStr := false
+		for i < n {
+			ch := s[i]
+			if ch == '"' {
+				inStr = !inStr
+			} else if !inStr {
+				if ch == '(' {
+					depth++
+				} else if ch == ')' {
+					if depth == 0 {
+						break
+					}
+					depth--
+				}
+			}
+			i++
+		}
+		into[name] = strings.TrimSpace(s[st:i])
+		i++ // closing paren of the pair
+	}
+}
